@@ -25,7 +25,8 @@ MANIFEST = dict(
          'and leaves inputs untouched, that no function keeps state in a mutable default / module / class object, and that no TL-B '
          'serialiser mutates a caller-held container.'
          ' A module-level table is accepted as a memo only when it is used as a table and keyed by every input of the computation it caches (unmodified parameters, no other parameter read); module-level instances of package classes that a function hands out by `return` are shared state.'
-         ' A function that rebinds a class attribute (a counter kept on the class) is process-wide state unless the step is undone in a finally directly around what follows, or it is a once-only table under a guard on the attribute whose value mentions no parameter.',
+         ' A function that rebinds a class attribute (a counter kept on the class) is process-wide state unless the step is undone in a finally directly around what follows, or it is a once-only table under a guard on the attribute whose value mentions no parameter.'
+         ' What order() returns belongs to the caller (collecting another root into it or clearing it changes nothing the cell reports later); end_cell() is a snapshot of the builder also after its content was replaced through the setters; local aliases of class-level containers are followed; a memoised function whose cached result is a mutable container that a caller changes in place is state carried between calls.',
     note='trusted: interpreter heap model (every list/bitarray is an identity-bearing mutable object). Not decided: state kept inside third-party libraries.',
     design_ref='DESIGN.md section 4 C08')
 
